@@ -16,6 +16,6 @@ PROFILE = dict(
     weights=dict(faulted=0.3, run=3, dry_run=1, status=2, start=2, finish=2.5, purge=0.3, acct_flush=0.3, modify_source=0.3,
                  delete_output=0.3, edit_spec=2.5, touch=1.5, clean=1.5, toggle_hashing=1, rename=0.4, remove=0.3, add=0.3,
                  reject_submit=1, advance=0.5),
-    p_job_ok=0.8, p_hashing=0.7, p_huge=0.01,
+    p_job_ok=0.8, spec_variety=True, p_hashing=0.7, p_huge=0.01,
 )
 make_scenario = make({"C18"}, PROFILE, CmdScenario)
